@@ -23,7 +23,8 @@ func init() {
 			"(R09.2) every mapped segment ends up in an object that carries its finalizer on every normal path (mapper summaries propagated to callers), so that unmapping is tied to unreachability of the owner; (R09.3) finalizer-carrying owners are held by pointer only – never copied by value or dereferenced into a copy – so that whoever holds code addresses keeps the one object whose collection unmaps them; " +
 			"(R09.4) keep-alive links (table involvement lists, GlobalInstance.Me, memory owner, module-engine parents, function-record lists) are never written on a path reachable from any Close/Delete entry point, and list-typed ones only grow; (R09.5) every address turned into an integer (uintptr) that outlives the statement has a collector-visible keeper: a fresh record is stored in the holder before its address leaves, a foreign object's address is accompanied by storing that object in the holder, or the pointee is owned by the holder itself; " +
 			"(R09.6) a linear-memory buffer from a custom allocator is freed only under a guard comparing the memory's owner with the closing instance. " +
-			"NOT decided: function references that flow dynamically between instances as guest values (the hazard named in the property text: a reference stored in another instance's private table); absence of crashes in general.",
+			"(R09.7) every interpreter arm, compiler Go-side arm and frontend arm that stores a guest-provided reference into a table registers the reference's defining instance for keep-alive – on this tree none does: this is the hazard named in the property text, demonstrated against the real code (seeded/C09-baseline) and recorded as eight known findings, one per storing arm. " +
+			"NOT decided: which values actually flow between instances at run time, references held in globals, absence of crashes in general.",
 		Rules: []core.Rule{
 			{ID: "R09.1", Template: "T-WHOCALLS", Text: "callers of MunmapCodeSegment are registered finalizers; finalizers are only referenced as finalizer arguments", Min: 4},
 			{ID: "R09.2", Template: "T-MUSTPASS", Text: "every mapping site reaches the owner's finalizer registration on all normal paths (interprocedural summaries)", Min: 10},
@@ -31,6 +32,7 @@ func init() {
 			{ID: "R09.4", Template: "T-WHOWRITES", Text: "keep-alive links are not written on close paths; list-typed links only grow", Min: 10},
 			{ID: "R09.5", Template: "T-MUSTPASS", Text: "integer-typed addresses that outlive the statement have a collector-visible keeper", Min: 15},
 			{ID: "R09.6", Template: "T-CONSULT", Text: "allocator buffers are freed by the owner only", Min: 1},
+			{ID: "R09.7", Template: "T-MUSTPASS", Text: "every arm that stores a guest-provided reference into a table registers the defining instance for keep-alive (known findings: none does)", Min: 6},
 		},
 		Run: runC09,
 		Controls: []core.Control{
@@ -270,6 +272,9 @@ func runC09(c *core.Ctx) {
 
 	// ---- R09.6 owner-only free
 	checkOwnerFree(c)
+
+	// ---- R09.7 dynamic reference stores
+	checkDynamicRefStores(c)
 }
 
 // ---------------------------------------------------------------------------------------------------------
@@ -1413,5 +1418,208 @@ func checkOwnerFree(c *core.Ctx) {
 	}
 	if n == 0 {
 		c.Undecided("R09.6", "LinearMemory.Free call sites", 0, "no call found")
+	}
+}
+
+// ---------------------------------------------------------------------------------------------------------
+// R09.7: references of dynamic provenance stored into a table need a keep-alive registration.
+
+func checkDynamicRefStores(c *core.Ctx) {
+	refs := structField(c, "internal/wasm", "TableInstance", "References")
+	if refs == nil {
+		c.Undecided("R09.7", "anchors", 0, "TableInstance.References not found")
+		return
+	}
+	growOnly := map[string]bool{}
+	for _, k := range keeperLinks {
+		if k.growOnly {
+			growOnly[k.field] = true
+		}
+	}
+	// does the node contain a registration: an assignment to a grow-only keep-alive list, or a call of a method that does
+	registers := func(info *types.Info, n ast.Node) bool {
+		found := false
+		ast.Inspect(n, func(x ast.Node) bool {
+			if as, ok := x.(*ast.AssignStmt); ok {
+				for _, l := range as.Lhs {
+					if f := core.FieldOf(info, l); f != nil && growOnly[f.Name()] {
+						found = true
+					}
+				}
+			}
+			if call, ok := x.(*ast.CallExpr); ok {
+				if f := core.Callee(info, call); f != nil {
+					ln := strings.ToLower(f.Name())
+					if strings.Contains(ln, "keepalive") || strings.Contains(ln, "involv") {
+						found = true
+					}
+				}
+			}
+			return !found
+		})
+		return found
+	}
+	type armSite struct {
+		what string
+		pos  token.Pos
+	}
+	goSide := func(rel, engine string) {
+		p := c.Pkg(rel)
+		if p == nil {
+			return
+		}
+		info := p.TypesInfo
+		isRefsExpr := func(e ast.Expr, locals map[types.Object]bool) bool {
+			hit := false
+			ast.Inspect(e, func(x ast.Node) bool {
+				switch y := x.(type) {
+				case *ast.SelectorExpr:
+					if info.Uses[y.Sel] == types.Object(refs) {
+						hit = true
+					}
+				case *ast.Ident:
+					if locals[info.Uses[y]] {
+						hit = true
+					}
+				}
+				return !hit
+			})
+			return hit
+		}
+		core.AllFuncDecls(p, func(fd *ast.FuncDecl) {
+			ast.Inspect(fd.Body, func(x ast.Node) bool {
+				cc, ok := x.(*ast.CaseClause)
+				if !ok || len(cc.List) == 0 {
+					return true
+				}
+				label := core.ExprStr(cc.List[0])
+				// locals bound to (slices of) some table's References inside this arm
+				locals := map[types.Object]bool{}
+				own := false
+				for iter := 0; iter < 3; iter++ {
+					for _, s := range cc.Body {
+						ast.Inspect(s, func(y ast.Node) bool {
+							if _, nested := y.(*ast.CaseClause); nested {
+								return false
+							}
+							if as, ok := y.(*ast.AssignStmt); ok && len(as.Lhs) == len(as.Rhs) {
+								for i, r := range as.Rhs {
+									if isRefsExpr(r, locals) {
+										if id, ok := as.Lhs[i].(*ast.Ident); ok {
+											if o := info.Defs[id]; o != nil {
+												locals[o] = true
+											} else if o := info.Uses[id]; o != nil {
+												locals[o] = true
+											}
+										}
+									}
+								}
+							}
+							return true
+						})
+					}
+				}
+				var sites []armSite
+				for _, s := range cc.Body {
+					ast.Inspect(s, func(y ast.Node) bool {
+						if _, nested := y.(*ast.CaseClause); nested {
+							return false
+						}
+						switch z := y.(type) {
+						case *ast.AssignStmt:
+							for _, l := range z.Lhs {
+								if ix, ok := l.(*ast.IndexExpr); ok && isRefsExpr(ix.X, locals) {
+									sites = append(sites, armSite{"element store", z.Pos()})
+								}
+							}
+						case *ast.CallExpr:
+							if core.IsBuiltin(info, z, "copy") && len(z.Args) == 2 && isRefsExpr(z.Args[0], locals) {
+								// own provenance: the source is one of the instance's element instances
+								if strings.Contains(strings.ToLower(core.ExprStr(z.Args[1])), "element") {
+									own = true
+								} else {
+									sites = append(sites, armSite{"bulk copy", z.Pos()})
+								}
+							}
+							if f := core.Callee(info, z); f != nil && f.Name() == "Grow" && core.RecvNameOf(f) == "TableInstance" {
+								sites = append(sites, armSite{"Grow with a reference argument", z.Pos()})
+							}
+						}
+						return true
+					})
+				}
+				if len(sites) == 0 {
+					return true
+				}
+				_ = own
+				reg := false
+				for _, s := range cc.Body {
+					if registers(info, s) {
+						reg = true
+					}
+				}
+				c.Check(reg, "R09.7", engine+" arm "+label+" stores a guest-provided reference into a table", sites[0].pos,
+					"the arm registers the reference's defining instance in a keep-alive list of the table",
+					fmt.Sprintf("%s (%d site(s)) without any keep-alive registration: a function reference obtained from another instance (as a value) and stored in this instance's private table does not keep its defining instance reachable; after that instance and its compiled module are closed and collected, call_indirect through the slot jumps into unmapped code (compiler) or reads a reused function record (interpreter)", sites[0].what, len(sites)))
+				return true
+			})
+		})
+	}
+	goSide("internal/engine/interpreter", "interpreter")
+	goSide(wzv, "compiler Go-side")
+
+	// generated code: frontend arms writing table memory
+	if p := c.Pkg("internal/engine/wazevo/frontend"); p != nil {
+		info := p.TypesInfo
+		core.AllFuncDecls(p, func(fd *ast.FuncDecl) {
+			ast.Inspect(fd.Body, func(x ast.Node) bool {
+				cc, ok := x.(*ast.CaseClause)
+				if !ok || len(cc.List) == 0 {
+					return true
+				}
+				label := core.ExprStr(cc.List[0])
+				if !strings.HasPrefix(label, "wasm.Opcode") {
+					return true
+				}
+				tableAddr, writes, ownSrc, exits := false, false, false, false
+				var pos token.Pos
+				for _, s := range cc.Body {
+					ast.Inspect(s, func(y ast.Node) bool {
+						if _, nested := y.(*ast.CaseClause); nested {
+							return false
+						}
+						switch z := y.(type) {
+						case *ast.CallExpr:
+							if f := core.Callee(info, z); f != nil {
+								switch {
+								case f.Name() == "loadTableBaseAddr" || f.Name() == "lowerAccessTableWithBoundsCheck":
+									tableAddr = true
+								case f.Name() == "AsStore" || f.Name() == "callMemmove":
+									writes = true
+									if pos == 0 {
+										pos = z.Pos()
+									}
+								}
+							}
+						case *ast.SelectorExpr:
+							if strings.Contains(z.Sel.Name, "ElementInstances") {
+								ownSrc = true
+							}
+							if strings.HasPrefix(z.Sel.Name, "ExitCode") || strings.Contains(z.Sel.Name, "TrampolineAddress") {
+								exits = true
+							}
+						}
+						return true
+					})
+				}
+				if !tableAddr || !writes || ownSrc {
+					return true
+				}
+				c.Check(exits, "R09.7", "compiler frontend arm "+label+" emits a store of a guest-provided reference into table memory", pos,
+					"the arm leaves to the Go side, where a keep-alive registration can be made",
+					"the generated code writes the reference straight into the table and never leaves to the Go side, so no keep-alive registration of the reference's defining instance is possible (same hazard as the interpreter arms)")
+				return true
+			})
+		})
 	}
 }
